@@ -14,16 +14,18 @@
 5. Trace_MatchSem.tla judges every record (clauses a-e); rejected records are reported.
 All judgements are made by the TLA+ modules; this file renders, parses, batches.
 """
-import json, os, re, hashlib
+import json, os, re, hashlib, time
 from concurrent.futures import ThreadPoolExecutor
 from lib.common import *
 from lib.swayexec import run_packages
 
 SEED0 = 14000
-EXH_POOLS = ["x_bool", "x_u8", "x_Ea", "x_bb", "x_bu", "x_eb", "x_Sa", "x_Eb", "x_Ec", "x_bbb", "x_Sb"]
-RND_TYPES = ["u8", "Ea", "Eb", "Ec", "Sa", "Sb", "bb", "bu", "eb", "bbb", "uu", "es"]
-NRAND = 300          # random matrices per chunk
-CHUNKS = 4           # chunks per type (thorough)
+# exhaustive pools and the number of pieces each is generated in (<= ~500 matrices per piece)
+EXH_POOLS = [("x_bool", 6), ("x_u8", 1), ("x_Ea", 4), ("x_bb", 4), ("x_bu", 6), ("x_eb", 2), ("x_Sa", 3),
+             ("x_Eb", 1), ("x_Ec", 3), ("x_bbb", 2), ("x_Sb", 1)]
+RND_TYPES = ["u8", "Ea", "Eb", "Ec", "Sa", "Sb", "bb", "bu", "eb", "bbb", "uu", "es", "tbb"]
+NRAND = 250          # random matrices per chunk
+CHUNKS = 3           # chunks per type
 FRONT_BATCH = 500    # matrices per vh-match package
 EXEC_BATCH = 100     # matrices per vh-exec package
 VARIANTS = "ABC"
@@ -31,30 +33,36 @@ FIELDS = "fgh"
 
 
 # ------------------------------------------------------------------ pools
-def all_chunks():
-    """The whole (finite, deterministic) pool as generation units (name, Sel, NRand, tlc seed)."""
-    units = [(p, p, 1, SEED0) for p in EXH_POOLS]
+def all_units():
+    """The whole (finite, deterministic) pool as generation units
+    (name, Sel, NRand, SliceK, SliceR, tlc seed); one TLC run each."""
+    units = []
+    for p, k in EXH_POOLS:
+        for r in range(k):
+            units.append(("%s.%d" % (p, r), p, 1, k, r, SEED0))
     for ti, ty in enumerate(RND_TYPES):
         for c in range(CHUNKS):
-            units.append(("r_%s.%d" % (ty, c), "r_" + ty, NRAND, SEED0 + 100 * (ti + 1) + c))
+            units.append(("r_%s.%d" % (ty, c), "r_" + ty, NRAND, 1, 0, SEED0 + 100 * (ti + 1) + c))
     return units
 
 
-def gen_unit(ctx, unit, full_lemma=True):
-    name, sel, nrand, seed = unit
+def gen_unit(ctx, unit):
+    name, sel, nrand, k, r, seed = unit
+    full_lemma = name.startswith("x_")     # random pools: the leaf-level lemma only
     cfg = os.path.join(ctx.work, "MC_%s.cfg" % name)
     with open(cfg, "w") as f:
-        f.write('CONSTANT Sel = {"%s"}\nCONSTANT NRand = %d\nCONSTANT FullLemma = %s\n'
+        f.write('CONSTANT Sel = {"%s"}\nCONSTANT NRand = %d\nCONSTANT SliceK = %d\nCONSTANT SliceR = %d\n'
+                'CONSTANT FullLemma = %s\n'
                 'SPECIFICATION Spec\nINVARIANT WellFormed\nINVARIANT Facts\nINVARIANT Lemma\n'
-                'INVARIANT PrintReplay\nCHECK_DEADLOCK FALSE\n' % (sel, nrand, "TRUE" if full_lemma else "FALSE"))
-    r = ctx.tlc("MC_MatchSem", cfg, workers=1, tlc_seed=seed, xss="1g", name="gen-" + name, timeout=3000)
-    recs = r.printed("REPLAY")
-    if r.violated:
-        ctx.report("model:%s:%s" % (name, r.violated),
-                   "MatchSem.tla violates its own fact %s on pool %s" % (r.violated, name),
-                   {"tlc": r.counterexample()[:6000]})
-    if len(recs) != r.distinct:
-        raise ToolError("pool %s: %d replay records for %d matrices" % (name, len(recs), r.distinct))
+                'INVARIANT PrintReplay\nCHECK_DEADLOCK FALSE\n' % (sel, nrand, k, r, "TRUE" if full_lemma else "FALSE"))
+    res = ctx.tlc("MC_MatchSem", cfg, workers=1, tlc_seed=seed, xss="1g", name="gen-" + name, timeout=3000)
+    recs = res.printed("REPLAY")
+    if res.violated:
+        ctx.report("model:%s:%s" % (name, res.violated),
+                   "MatchSem.tla violates its own fact %s on pool %s" % (res.violated, name),
+                   {"tlc": res.counterexample()[:6000]})
+    elif len(recs) != res.distinct:
+        raise ToolError("pool %s: %d replay records for %d matrices" % (name, len(recs), res.distinct))
     for i, x in enumerate(recs):
         x["id"] = "%s#%d" % (name, i)
     return recs
@@ -568,32 +576,41 @@ def mutants(trecs):
 
 # ------------------------------------------------------------------ driver
 def run(ctx):
-    units = all_chunks()
+    if os.environ.get("C14_VH_DIR"):
+        # development aid: use harness binaries built against a scratch worktree of /repo
+        d = os.environ["C14_VH_DIR"]
+        ctx._built.update({"vh-match", "vh-exec"})
+        ctx.vh_path = lambda b: os.path.join(d, b)
+        log("[C14] using harness binaries from " + d)
+    units = all_units()
     if ctx.quick:
-        # VERIF_SEED selects which pools / chunks (and which slice of an exhaustive pool) are run
-        exh = slice_for_seed([u for u in units if u[0].startswith("x_")], ctx.seed, 2)
-        rnd = slice_for_seed([u for u in units if u[0].startswith("r_")], ctx.seed, 6)
-        units = exh + rnd
+        # VERIF_SEED selects which pieces of the pool are run
+        units = slice_for_seed([u for u in units if u[0].startswith("x_")], ctx.seed, 2) + \
+                slice_for_seed([u for u in units if u[0].startswith("r_")], ctx.seed, 4)
+    t0 = time.time()
     with ThreadPoolExecutor(max_workers=4) as ex:
         pools = list(ex.map(lambda u: gen_unit(ctx, u), units))
     recs = []
     per_pool = {}
     for u, p in zip(units, pools):
-        if ctx.quick and u[0].startswith("x_"):
-            p = slice_for_seed(p, ctx.seed, 400)
         per_pool[u[0]] = len(p)
         recs += p
-    log("[C14] %d matrices from %d pools" % (len(recs), len(units)))
+    log("[C14] %d matrices from %d pool pieces (TLC %.0fs)" % (len(recs), len(units), time.time() - t0))
 
+    t0 = time.time()
     front = run_front(ctx, recs)
     accepted = [r for r in recs if not front[r["id"]]["nonexh"] and not front[r["id"]]["other"]]
-    log("[C14] front end: %d accepted, %d rejected as non-exhaustive, %d other errors" % (
-        len(accepted), sum(1 for r in recs if front[r["id"]]["nonexh"]),
+    log("[C14] front end (%.0fs): %d accepted, %d rejected as non-exhaustive, %d other errors" % (
+        time.time() - t0, len(accepted), sum(1 for r in recs if front[r["id"]]["nonexh"]),
         sum(1 for r in recs if front[r["id"]]["other"])))
+    t0 = time.time()
     execd = run_exec(ctx, accepted)
+    log("[C14] executed %d matrices (%.0fs)" % (len(execd), time.time() - t0))
+    t0 = time.time()
     trecs = [trace_record(r, front[r["id"]], execd.get(r["id"])) for r in recs]
     write_ndjson(os.path.join(ctx.work, "records.ndjson"), trecs)
     rej, validated = judge(ctx, trecs)
+    log("[C14] trace validation: %d records, %d rejected (%.0fs)" % (validated, len(rej), time.time() - t0))
     byid = {r["id"]: r for r in recs}
     tbyid = {t["id"]: t for t in trecs}
     clause_count = {}
@@ -603,7 +620,7 @@ def run(ctx):
             if not j[x]:
                 clause_count[x] = clause_count.get(x, 0) + 1
         ctx.report(finding_key(byid[rid], j), describe(byid[rid], tbyid[rid], j),
-                   {"record": tbyid[rid], "model": j, "source": "fn m(s: %s) -> u64 { match s { %s } }" % (
+                   {"matrix": byid[rid], "record": tbyid[rid], "model": j, "source": "fn m(s: %s) -> u64 { match s { %s } }" % (
                        r_type(byid[rid]["t"]), " ".join("%s => %d," % (r_pat(p, byid[rid]["t"]), i + 1)
                                                         for i, p in enumerate(byid[rid]["M"])))})
     # binding: corrupted verdicts of accepted records must all be rejected by the trace spec
@@ -631,7 +648,7 @@ def run(ctx):
         "binding_mutants_rejected": len(muts),
         "exhaustive": "exhaustive pools x_*: all matrices over the small pattern sets up to the stated arm count; "
                       "random pools r_*: fixed TLC seeds",
-        "constants": {"NRand": NRAND, "chunks": CHUNKS, "tlc_seed_base": SEED0, "literals": "L3={0,1,255}, L5={0,1,3,254,255}"},
+        "constants": {"NRand": NRAND, "chunks": CHUNKS, "exhaustive_pools": dict(EXH_POOLS), "tlc_seed_base": SEED0, "literals": "L3={0,1,255}, L5={0,1,3,254,255}"},
         "samples": samples,
     }, assumptions=[
         "scrutinee types: bool, u8, enums Ea/Eb/Ec, structs Sa/Sb, tuples of these (see MC_MatchSem.Types); pattern depth <= 2",
@@ -642,7 +659,36 @@ def run(ctx):
     ])
 
 
+def one_case(ctx, rec):
+    """The whole pipeline on one matrix: -> (trace record, judgement or None when accepted)."""
+    front = run_front(ctx, [rec], procs=1)
+    c = front[rec["id"]]
+    ex = None
+    if not c["nonexh"] and not c["other"]:
+        ex = run_exec(ctx, [rec], procs=1).get(rec["id"])
+    tr = trace_record(rec, c, ex)
+    rej, _ = judge(ctx, [tr], procs=1, tag="replay")
+    return tr, rej.get(rec["id"])
+
+
 def replay(path):
+    """Re-execute one violation file: compile (and run) the match again, judge it again, print both sides."""
     v = json.load(open(path))
-    print(json.dumps(v, indent=1))
-    return 0
+    rec = v["replay"].get("matrix")
+    if rec is None:
+        print(json.dumps(v, indent=1))
+        return 0
+    ctx = Ctx("C14replay", "quick", 0)
+    tr, j = one_case(ctx, rec)
+    print("source:   fn m(s: %s) -> u64 { match s { %s } }" % (
+        r_type(rec["t"]), " ".join("%s => %d," % (r_pat(p, rec["t"]), i + 1) for i, p in enumerate(rec["M"]))))
+    print("compiler: non-exhaustive=%s missing=%s flagged-unreachable=%s other=%s" % (
+        tr["c"]["nonexh"], tr["c"]["missing"], tr["c"]["flagged"], tr["c"]["other"]))
+    if tr["run"]:
+        print("run:      %s" % ", ".join("%s -> %d" % (r_val(x, rec["t"]), r) for x, r in zip(rec["vals"], tr["res"])))
+    print("model:    exhaustive=%s unreachable=%s Arm=%s" % (rec["exh"], rec["unreach"], rec["arm"]))
+    if j is None:
+        print("verdict:  accepted by Trace_MatchSem")
+        return 0
+    print("verdict:  REJECTED, clauses %s" % [x for x in "abcde" if not j[x]])
+    return 1
